@@ -52,7 +52,16 @@ func genC06(r *sim.Rand, tier string) *sim.Program {
 			continue
 		}
 		if nsig == 0 || r.Chance(1, 4) {
-			p.Add("sign", r.Intn(3), r.Intn(1<<30)).WithB(r.Bytes(uidLen()), r.Bytes(r.PickInt(0, 1, 32, 33, 100, 300)))
+			switch r.Intn(8) {
+			case 0:
+				// constructive: the digest is chosen after the nonce so that r is small (top 32..64 bits zero)
+				p.Add("smallr", r.Intn(1<<30), r.PickInt(4, 4, 5, 8, 16, 28)).WithB(r.Bytes(28))
+			case 1:
+				// constructive: the digest makes the FIRST scripted nonce hit a retry condition (r = 0, r+k = n, s = 0)
+				p.Add("signretry", r.Intn(1<<30), r.Intn(3))
+			default:
+				p.Add("sign", r.Intn(3), r.Intn(1<<30)).WithB(r.Bytes(uidLen()), r.Bytes(r.PickInt(0, 1, 32, 33, 100, 300)))
+			}
 			nsig++
 			continue
 		}
@@ -81,6 +90,7 @@ func genC06(r *sim.Rand, tier string) *sim.Program {
 
 type c06Sig struct {
 	uid, msg, e, sig []byte
+	raw               bool // signature over a raw digest e (no user ID / message): only VerifyASN1 applies
 }
 
 func c06Key(kk int, dBytes []byte) (*sm2.PrivateKey, *big.Int, error) {
@@ -142,12 +152,19 @@ func execC06(t *testing.T, p *sim.Program, c *sim.Ctx) {
 	}
 	var sigs []*c06Sig
 	// deliver: both verification entry points against the model
+	var rawDigest []byte // when set, the delivery is about a signature over this raw digest
 	deliver := func(i int, kind string, key *ecdsa.PublicKey, mpub sm2m.Point, uid, msg, sig []byte) {
 		za := sm2m.ZA(effUID(uid), mpub)
 		e := sm2m.DigestE(za, msg)
+		if rawDigest != nil {
+			copy(e[:], rawDigest)
+		}
 		want := sm2m.VerifyASN1Model(mpub, e[:], sig)
 		got1 := sm2.VerifyASN1(key, e[:], sig)
 		got2 := sm2.VerifyASN1WithSM2(key, uid, msg, sig)
+		if rawDigest != nil {
+			got2 = got1
+		}
 		c.Out(kind, []byte{b2i(got1), b2i(got2)})
 		if want {
 			c.Hit("probe:delivery-model-accepts")
@@ -236,10 +253,91 @@ func execC06(t *testing.T, p *sim.Program, c *sim.Ctx) {
 			deliver(i, "sign", &priv.PublicKey, pub, uid, msg, sig)
 			continue
 		}
+		if op.K == "smallr" || op.K == "signretry" {
+			if kk >= 3 {
+				continue
+			}
+			n := sm2m.N
+			seedb := append([]byte(fmt.Sprint(op.Int(0))), p.CB("d")...)
+			k0b := derive(seedb, "k0", 32)
+			k0b[0] &= 0x7f
+			k0b[31] |= 1
+			k1b := derive(seedb, "k1", 32)
+			k1b[0] &= 0x7f
+			k1b[31] |= 1
+			k0, k1 := new(big.Int).SetBytes(k0b), new(big.Int).SetBytes(k1b)
+			x1 := sm2m.ScalarBaseMult(k0).X
+			e := new(big.Int)
+			wantNonce := k0
+			var rd *sim.ScriptReader
+			if op.K == "smallr" {
+				zeroBytes := op.Int(1)
+				if zeroBytes < 1 || zeroBytes > 30 {
+					zeroBytes = 4
+				}
+				rt := new(big.Int).SetBytes(fitKey(op.Bytes(0), 32-zeroBytes))
+				if rt.Sign() == 0 {
+					rt.SetInt64(1)
+				}
+				e.Sub(rt, x1)
+				e.Mod(e, n) // r = (e + x1) mod n = rt: small
+				rd = &sim.ScriptReader{Data: k0b, Fill: 5, Step: 3}
+				c.Abs("smallr", zeroBytes)
+				c.Hit("probe:signature-with-small-r")
+			} else {
+				which := ((op.Int(1) % 3) + 3) % 3
+				switch which {
+				case 0: // r = 0
+					e.Neg(x1)
+				case 1: // r + k = n
+					e.Add(k0, x1)
+					e.Neg(e)
+				default: // s = 0  <=>  k = r*d  <=>  r = k*d^-1
+					rr := new(big.Int).ModInverse(d, n)
+					rr.Mul(rr, k0)
+					e.Sub(rr, x1)
+				}
+				e.Mod(e, n)
+				wantNonce = k1
+				rd = &sim.ScriptReader{Data: append(append([]byte{}, k0b...), k1b...), Fill: 5, Step: 3}
+				c.Abs("signretry", which)
+				c.Hit("probe:sign-retry-branch-taken")
+			}
+			eb := e.FillBytes(make([]byte, 32))
+			sig, err := priv.Sign(rd, eb, nil)
+			c.OutErr(op.K, err)
+			if err != nil {
+				c.Fail("sign-failed", i, op.K, "signing a digest chosen to hit a rare branch failed (the algorithm must draw the next nonce): %v", err)
+				return
+			}
+			c.Out("sig", sig)
+			r, s2, ok := sm2m.ParseStrictDERSig(sig)
+			if !ok || !sm2m.VerifyRS(pub, eb, r, s2) {
+				c.Fail("honest-signature-invalid", i, op.K, "signature over a chosen digest does not satisfy the GB/T 32918.2 equation: %x", sig)
+				return
+			}
+			if got := sm2m.RecoverK(d, r, s2); got.Cmp(wantNonce) != 0 {
+				c.Fail("nonce-mismatch", i, op.K, "the signature was not made with the expected scripted nonce (retry conditions r = 0, r+k = n, s = 0 must skip exactly the first nonce)")
+				return
+			}
+			sg := &c06Sig{e: eb, sig: sig, raw: true}
+			sigs = append(sigs, sg)
+			rawDigest = eb
+			deliver(i, op.K, &priv.PublicKey, pub, nil, nil, sig)
+			// the out-of-range twins of this signature
+			deliver(i, op.K+"-r+n", &priv.PublicKey, pub, nil, nil, sm2m.MarshalDERSig(new(big.Int).Add(r, n), s2))
+			deliver(i, op.K+"-s+n", &priv.PublicKey, pub, nil, nil, sm2m.MarshalDERSig(r, new(big.Int).Add(s2, n)))
+			rawDigest = nil
+			continue
+		}
 		if len(sigs) == 0 {
 			continue
 		}
 		sg := sigs[((op.Int(0)%len(sigs))+len(sigs))%len(sigs)]
+		rawDigest = nil
+		if sg.raw {
+			rawDigest = sg.e
+		}
 		r, s, _ := sm2m.ParseStrictDERSig(sg.sig)
 		switch op.K {
 		case "deliver":
